@@ -25,7 +25,7 @@ PROP = "C03"
 
 EVIDENCE = {
     "rule": "one evaluation = one simulated call history of one constitutive object (material-point machine: 6..24 trial/commit/reject operations on a batch of material points; or one FE job with the monitoring wrapper between body and material); non-trivial = at least one derivative probe at a state with non-zero committed state variables, or a reused dirty out= buffer, or a rejected trial followed by a commit; distinct = distinct (model, operation sequence shape, probe outcome classes)",
-    "probes_expected": ["fd-hessian-probe", "fd-gradient-probe", "probe-at-stored-state", "reject-then-commit", "out-buffer-dirty", "mixed-block-probe", "kink-discarded", "job-umat-call-monitored", "plastic-loading-point", "unloading-point", "hessian-first-at-new-state", "poisoned-call-in-between", "parameters-reassigned"],
+    "probes_expected": ["fd-hessian-probe", "fd-gradient-probe", "probe-at-stored-state", "reject-then-commit", "out-buffer-dirty", "mixed-block-probe", "kink-discarded", "job-umat-call-monitored", "plastic-loading-point", "unloading-point", "hessian-first-at-new-state", "poisoned-call-in-between", "parameters-reassigned", "parameters-as-arrays"],
     "clauses_sampled_only": ["for stateless hyperelastic models evaluated without out= the derivative check is sampling of deformation gradients (pure function); only the call protocol (idempotence, inputs untouched, buffer reuse) is history"],
     "components": {
         "real": ["felupe.constitution (hand-coded, tensortrax, composite, mixed wrappers, small-strain framework)", "tensortrax", "numpy"],
@@ -416,11 +416,30 @@ def run_point(doc, log):
     spec = dict(doc["umat"])
     if doc.get("parallel"):
         spec["parallel"] = True
-    umat = build(spec)
     model = doc["model"]
+    q, c = doc["batch"]
+    # the same parameters typed as arrays (0-d, or one value per cell / quadrature point where the
+    # model broadcasts them): the object must behave like the one built from floats (the cold
+    # reference objects are), and must leave the caller's parameter arrays alone
+    param_arrays = {}
+    how = (None, "0d", None, "1c", None, "qc")[doc["seed"] % 6]
+    if how and model in REPARAM and not doc.get("parallel"):
+        if how != "0d" and model not in ("LinearElastic", "Volumetric"):
+            how = "0d"
+        spec_t = copy.deepcopy(spec)
+        for attr in REPARAM[model]:
+            v = spec_t["p"].get(attr)
+            if v is None:
+                continue
+            arr = np.array(float(v)) if how == "0d" else np.full((1, c) if how == "1c" else (q, c), float(v))
+            spec_t["p"][attr] = arr
+            param_arrays[attr] = (arr, adigest(arr))
+        umat = build(spec_t)
+        log.count("parameters-as-arrays")
+    else:
+        umat = build(spec)
     rng = np.random.default_rng(doc["c03"]["probe_seed"])
     pr = Probe(umat, spec, model, log, rng)
-    q, c = doc["batch"]
     Hrng = np.random.default_rng(doc["H_seed"])
     nd = umat.x[0].shape[0] if hasattr(umat, "x") else (2 if model in ("LinearElasticPlaneStress", "LinearElasticPlaneStrain") else 3)
     H = Hrng.normal(size=(nd, nd, q, c))
@@ -488,6 +507,13 @@ def run_point(doc, log):
             for kb, (a, b_) in enumerate(zip(h_first, h_cold)):
                 if a is None or b_ is None:
                     continue
+                b_ = np.asarray(b_)
+                if a.shape != b_.shape:
+                    # a constant elasticity may come with singleton batch axes
+                    try:
+                        a, b_ = np.broadcast_arrays(a, b_)
+                    except ValueError:
+                        pass
                 ok, rel = close_exact_twin(a, np.asarray(b_), rtol=1e-10, atol=1e-12 * (1 + float(np.abs(np.asarray(b_)).max())))
                 if not ok:
                     raise Violation(PROP, "call-history", f"{model}.hessian requested first at a new state (inputs updated in place, no gradient call in between) differs from a fresh object's result (block {kb}, rel {rel:.2e})", site=f"{model}.hessian-first")
@@ -524,6 +550,9 @@ def run_point(doc, log):
         else:
             had_reject = True
             sig.append("r")
+    for attr, (arr, dig) in param_arrays.items():
+        if adigest(arr) != dig:
+            raise Violation(PROP, "inputs-untouched", f"{model}: the parameter array {attr!r} handed to the constructor was modified by evaluations", site=f"{model}.parameters")
     stored = log.counters.get("probe-at-stored-state", 0) > 0
     return {
         "signature": f"point|{model}|{''.join(sig)}|{doc['batch']}|{int(bool(doc.get('out_dirty')))}",
